@@ -224,6 +224,22 @@ def m5_spellings(c1: int, nw: bool) -> bool:
     return round_trip_ok(SPELLINGS[P('sk')].format(chr(c1)), nw)
 
 
+LAYOUT = ' \na'
+
+
+@lemma('M6.layout', 'C09', quick=by('c1', list(LAYOUT), [{'k': 4, 'nw': False}, {'k': 5, 'nw': False}]),
+       thorough=by('c1', list(LAYOUT), [{'k': 4, 'nw': n} for n in (False, True)] + [{'k': 5, 'nw': n} for n in (False, True)] + [{'k': 6, 'nw': False, 'timeout': 3000}]),
+       timeout=900, per_path=120,
+       covers=['block_token.py:BlockCode.start', 'block_tokenizer.py:tokenize_block', 'markdown_renderer.py:MarkdownRenderer.render_block_code', 'markdown_renderer.py:MarkdownRenderer.blocks_to_lines'],
+       note='documents of k = 4..6 characters over {space, newline, a}: indentation and blank-line layout only (what M1 cannot reach at 2-3 characters): same HTML and definitions after the round trip, second rendering is the identity')
+def m6_layout(c1: int, c2: int, c3: int, c4: int, c5: int, c6: int, nw: bool) -> bool:
+    """
+    pre: fixed(c1, 'c1') and fixed(nw, 'nw') and all_in(LAYOUT, P('k'), c1, c2, c3, c4, c5, c6)
+    post: _
+    """
+    return round_trip_ok(S(P('k'), c1, c2, c3, c4, c5, c6), nw)
+
+
 def witness_empty_fence():
     """(fixed) an empty fenced code block gained a line in the round trip"""
     import mistletoe
